@@ -122,6 +122,12 @@ def gen_sizer_case(rng, kind):
         if rng.random() < 0.04:
             p = None
         items.append([a, w, p])
+    if len(items) >= 2 and rng.random() < 0.06:
+        # zero-sum vector containing negative weights (exactly, or within the isclose tolerance)
+        tot = sum(i[1] for i in items[:-1])
+        items[-1][1] = -tot + rng.choice([0.0, 0.0, 1e-9, -1e-9])
+        if tot == 0:
+            items[0][1], items[-1][1] = 0.5, -0.5
     if kind == 'dw':
         param = rng.choice([0.0, 0.05, 0.025, 0.15, 0.5, 1.0, rng.random()])
         if rng.random() < 0.05:
